@@ -149,6 +149,12 @@ def value_items(c, name, f, depth, rng):
             elif v["style"] == "newtype":
                 out.append(meta(name, "list", items=[meta(vn, "nv", "s:v1")]))
                 out.append(meta(name, "list", items=[meta(vn, "nv", "i:5")]))
+                if v["ty"]["k"] in ("recv", "map", "enum"):
+                    # the inner type's own list forms - an empty list, a complete one, one with mistakes
+                    fake = {"ty": v["ty"], "multiple": False, "transform": "none"}
+                    for it in value_items(c, vn, fake, depth - 1, rng)[:6]:
+                        if it["form"] == "list":
+                            out.append(meta(name, "list", items=[it]))
             else:
                 out.append(meta(name, "list", items=[meta(vn, "nv", "s:v1")]))
         first = e["variants"][0]
